@@ -161,7 +161,9 @@ Definition prop_dns_seq (args : list bytes) : bytes :=
   | size :: dur :: rest =>
       let ops := removelast rest in
       let obs := last rest [] in
-      oracle_ops (n_of size) (n_of dur) ops (split_all 10 obs []) 0 []
+      if bytes_eqb obs (bs "timeout")
+      then bs "FAIL a call on the cache did not return (never deadlocks: is the mutex held by a spinning loop?)"
+      else oracle_ops (n_of size) (n_of dur) ops (split_all 10 obs []) 0 []
   | _ => bs "badargs"
   end.
 
